@@ -73,6 +73,50 @@ func (parserPanic) Error() string { return "parser panicked" }
 
 var errParserPanic = parserPanic{}
 
+// LoadNamed returns the named corpus objects only (names relative to v3/testdata) without reading or parsing
+// the rest of the corpus: for workers that are started thousands of times.
+func LoadNamed(names ...string) []Seed {
+	dir := filepath.Join(RepoDir(), "v3", "testdata")
+	var out []Seed
+	for _, name := range names {
+		data, err := os.ReadFile(filepath.Join(dir, filepath.FromSlash(name)))
+		if err != nil {
+			continue
+		}
+		s := string(data)
+		switch {
+		case strings.Contains(s, "-BEGIN CERTIFICATE-"):
+			rest := data
+			for {
+				var blk *pem.Block
+				blk, rest = pem.Decode(rest)
+				if blk == nil {
+					break
+				}
+				if blk.Type == "CERTIFICATE" {
+					if _, err := ParseCert(blk.Bytes); err == nil {
+						out = append(out, Seed{name, Cert, blk.Bytes})
+					}
+					break
+				}
+			}
+		case strings.Contains(s, "-BEGIN X509 CRL-"):
+			if blk, _ := pem.Decode(data); blk != nil {
+				if _, err := ParseCRL(blk.Bytes); err == nil {
+					out = append(out, Seed{name, CRL, blk.Bytes})
+				}
+			}
+		default:
+			if raw, err := base64.StdEncoding.DecodeString(strings.TrimSpace(s)); err == nil {
+				if _, err := ParseOCSP(raw); err == nil {
+					out = append(out, Seed{name, OCSP, raw})
+				}
+			}
+		}
+	}
+	return out
+}
+
 // Load returns every parseable object of the corpus (v3/testdata and its
 // sub-directories: code_signing/, smime/ …), sorted by name. A seed's name is
 // its path relative to v3/testdata.
